@@ -95,6 +95,10 @@ Theorem C09_S3_union_sequence_xcdr2_refuted :
     (VData [(0, VSeqData [[(0, VP KI32 10); (1, VP KU8 3)]])]) 4.
 Proof. exact witness_union_sequence. Qed.
 
+(* the value comparison used by the correspondence oracle is equality *)
+Theorem C09_oracle_sound : forall a b : val, val_eqb a b = true <-> a = b.
+Proof. exact val_eqb_eq. Qed.
+
 (* non-vacuity: a nested appendable value with an optional member, strings outside ASCII,
    an array of structs with enum and wstring members satisfies every hypothesis *)
 Example C09_nonvacuous :
@@ -116,3 +120,4 @@ Print Assumptions C09_S3_nested_mutable_xcdr2_refuted.
 Print Assumptions C09_S3_xcdr1_mutable_alignment_refuted.
 Print Assumptions C09_S3_appendable_union_xcdr1_refuted.
 Print Assumptions C09_S3_union_sequence_xcdr2_refuted.
+Print Assumptions C09_oracle_sound.
